@@ -26,7 +26,14 @@ import (
 // Rng is SplitMix64: every random choice of a run derives from VERIF_SEED.
 type Rng struct{ s uint64 }
 
-func NewRng(seed uint64) *Rng { return &Rng{s: seed*0x9E3779B97F4A7C15 + 0x1234567} }
+func NewRng(seed uint64) *Rng {
+	// Mix the seed first: the state advances by a constant, so unmixed consecutive seeds would
+	// produce the same stream shifted by one draw.
+	z := seed + 0x9E3779B97F4A7C15
+	z = (z ^ (z >> 30)) * 0xBF58476D1CE4E5B9
+	z = (z ^ (z >> 27)) * 0x94D049BB133111EB
+	return &Rng{s: z ^ (z >> 31)}
+}
 
 func (r *Rng) U64() uint64 {
 	r.s += 0x9E3779B97F4A7C15
@@ -59,7 +66,7 @@ func (r *Rng) PickU(vals ...uint64) uint64 {
 func (r *Rng) PickS(vals ...string) string { return vals[r.Intn(len(vals))] }
 
 // Fork derives an independent generator (so adding draws in one case does not shift the others).
-func (r *Rng) Fork() *Rng { return &Rng{s: r.U64()} }
+func (r *Rng) Fork() *Rng { return NewRng(r.U64()) }
 
 // Perm returns a permutation of 0..n-1.
 func (r *Rng) Perm(n int) []int {
